@@ -54,6 +54,16 @@ def run_case(case):
 
     rng = pipeline.case_rng(case, 5)
     desc, realised = pipeline.model_from_case(case)
+    if case["index"] % 5 == 3 and "desc" not in case:
+        # legal variable names that coincide with the panel's own labels ('period',
+        # 'initial_state_id', 'value'): only '_period' is reserved
+        names = [s_ for s_, _ in desc["states"]] + [c_ for c_, _ in desc["choices"]]
+        mapping = {names[0]: "period"}
+        if len(names) >= 2:
+            mapping[names[-1]] = "initial_state_id"
+        desc = pipeline.rename_variables(desc, mapping)
+        pipeline.LAST["desc"] = desc
+        realised = {**realised, "variables_named_like_panel_labels": True}
     if case.get("force_T"):
         desc = {**desc, "n_periods": case["force_T"]}
         # period-indexed tables / shocks were generated for the original horizon: only shrink
